@@ -10,7 +10,7 @@ CASE_TYPE = 'C03.case'
 EXTRA_IMPORTS = dispenv.DISP_IMPORTS + 'From PJ Require Import Corr.DispOk.\n'
 RULE = ('failure kinds x {call, notification, inside a batch at each position of a 3-batch}: protocol errors with codes '
         '{0,1,-1, six standard codes, -32099, 2**70} x messages {"", "m"} x data {absent, null, 0, "", [], {}, nested}; exception '
-        'types ValueError, KeyError, TypeError (raised inside the body), AssertionError, RuntimeError, custom subclass, each carrying '
+        'types ValueError, KeyError, TypeError (raised inside the body), AssertionError, RuntimeError, custom subclass, and the non-protocol exceptions of the library itself (validators.ValidationError, DeserializationError, IdentityError), each carrying '
         'a marker string searched for in the response; unknown method; params that do not bind (missing/surplus/unknown, list and '
         'mapping); invalid request objects; invalid batches; non-JSON and huge-integer texts; both dispatchers. distinct = distinct '
         '(config, text, kind); non-trivial = the reply carries an error code or the text is JSON')
@@ -61,7 +61,7 @@ def generate(seed, tier):
     for code, msg, data in itertools.product(CODES, MSGS, DATAS):
         for doc in shapes('f'):
             cases.append({'cfg': cfg_rpc(code, msg, data), 'text': json.dumps(doc)})
-    for tag in range(6):
+    for tag in range(9):
         for doc in shapes('f'):
             cases.append({'cfg': cfg_exc(tag), 'text': json.dumps(doc)})
     base = cfg_exc(0)
